@@ -90,6 +90,40 @@ class Canon(ast.NodeTransformer):
             node.body = inner.body
         return node
 
+    def visit_JoinedStr(self, node: ast.JoinedStr):
+        self.generic_visit(node)
+        # f'..{"CONST"}..' -> the constant is part of the literal text; adjacent literals are merged
+        vals: List[ast.AST] = []
+
+        def flat(e):
+            if isinstance(e, ast.BinOp) and isinstance(e.op, ast.Add):
+                return flat(e.left) + flat(e.right)
+            return [e]
+        src: List[ast.AST] = []
+        for v in node.values:
+            # {'lit' + x + 'lit'}: a concatenation with a string literal in it is text - its parts stand in the f-string directly
+            if isinstance(v, ast.FormattedValue) and v.conversion == -1 and v.format_spec is None and isinstance(v.value, ast.BinOp):
+                parts = flat(v.value)
+                if any(isinstance(p_, ast.Constant) and isinstance(p_.value, str) for p_ in parts) or any(isinstance(p_, ast.JoinedStr) for p_ in parts):
+                    for p_ in parts:
+                        if isinstance(p_, ast.JoinedStr):
+                            src.extend(p_.values)
+                        elif isinstance(p_, ast.Constant) and isinstance(p_.value, str):
+                            src.append(p_)
+                        else:
+                            src.append(ast.copy_location(ast.FormattedValue(value=p_, conversion=-1, format_spec=None), v))
+                    continue
+            src.append(v)
+        for v in src:
+            if isinstance(v, ast.FormattedValue) and isinstance(v.value, ast.Constant) and isinstance(v.value.value, str) and v.conversion == -1 and v.format_spec is None:
+                v = ast.copy_location(ast.Constant(value=v.value.value), v)
+            if vals and isinstance(v, ast.Constant) and isinstance(vals[-1], ast.Constant) and isinstance(v.value, str) and isinstance(vals[-1].value, str):
+                vals[-1] = ast.copy_location(ast.Constant(value=vals[-1].value + v.value), vals[-1])
+            else:
+                vals.append(v)
+        node.values = vals
+        return node
+
     def visit_IfExp(self, node: ast.IfExp):
         self.generic_visit(node)
         if isinstance(node.test, ast.UnaryOp) and isinstance(node.test.op, ast.Not):
@@ -335,9 +369,140 @@ def _is_lookup_with_default(test: ast.AST, value: ast.AST) -> bool:
         and _src(value.value) == _src(test.comparators[0]) and _src(value.slice) == _src(test.left)
 
 
+class _JoinOverDisplay(ast.NodeTransformer):
+    """D9:  SEP.join(E(x) for x in [a, b])  ->  f'{E(a)}SEP{E(b)}'   (SEP a string literal, the iterable a display of plain values, a local bound once to
+    such a display, or a conditional choice between displays - then the result is the same choice between the joined texts)."""
+    def __init__(self, local_displays):
+        self.local = local_displays
+
+    @staticmethod
+    def _display(e):
+        if isinstance(e, (ast.List, ast.Tuple)) and 1 <= len(e.elts) <= 6 and all(_pure_cell(c) and not isinstance(c, ast.Lambda) for c in e.elts):
+            return list(e.elts)
+        return None
+
+    def _joined(self, sep: str, elt: ast.AST, var: str, cells):
+        import copy
+        values: List[ast.AST] = []
+        for i, c in enumerate(cells):
+            if i and sep:
+                values.append(ast.Constant(value=sep))
+            piece = _Subst({var: c}).visit(copy.deepcopy(elt))
+            if isinstance(piece, ast.JoinedStr):
+                values.extend(piece.values)
+            elif isinstance(piece, ast.Constant) and isinstance(piece.value, str):
+                values.append(piece)
+            else:
+                values.append(ast.FormattedValue(value=piece, conversion=-1, format_spec=None))
+        # merge adjacent constants
+        merged: List[ast.AST] = []
+        for v in values:
+            if merged and isinstance(v, ast.Constant) and isinstance(merged[-1], ast.Constant):
+                merged[-1] = ast.Constant(value=merged[-1].value + v.value)
+            else:
+                merged.append(v)
+        return ast.JoinedStr(values=merged)
+
+    def visit_Call(self, node):
+        self.generic_visit(node)
+        f = node.func
+        if isinstance(f, ast.Attribute) and f.attr == 'join' and isinstance(f.value, ast.Constant) and isinstance(f.value.value, str) and len(node.args) == 1 \
+                and not node.keywords and isinstance(node.args[0], (ast.List, ast.Tuple)) and 1 <= len(node.args[0].elts) <= 12 \
+                and not any(isinstance(e, ast.Starred) for e in node.args[0].elts):
+            # SEP.join([e1, e2, e3])  ->  f'{e1}SEP{e2}SEP{e3}'   (the elements are evaluated in the same order)
+            vals: List[ast.AST] = []
+            for i, e in enumerate(node.args[0].elts):
+                if i and f.value.value:
+                    vals.append(ast.Constant(value=f.value.value))
+                if isinstance(e, ast.JoinedStr):
+                    vals.extend(e.values)
+                elif isinstance(e, ast.Constant) and isinstance(e.value, str):
+                    vals.append(e)
+                else:
+                    vals.append(ast.FormattedValue(value=e, conversion=-1, format_spec=None))
+            js = ast.JoinedStr(values=vals)
+            for x in ast.walk(js):
+                if not hasattr(x, 'lineno'):
+                    ast.copy_location(x, node)
+            return ast.copy_location(js, node)
+        if not (isinstance(f, ast.Attribute) and f.attr == 'join' and isinstance(f.value, ast.Constant) and isinstance(f.value.value, str)
+                and len(node.args) == 1 and not node.keywords and isinstance(node.args[0], (ast.GeneratorExp, ast.ListComp))):
+            return node
+        g = node.args[0]
+        if len(g.generators) != 1 or g.generators[0].ifs or not isinstance(g.generators[0].target, ast.Name):
+            return node
+        it = g.generators[0].iter
+        if isinstance(it, ast.Name) and it.id in self.local:
+            it = self.local[it.id]
+        var = g.generators[0].target.id
+
+        def build(e):
+            cells = self._display(e)
+            if cells is not None:
+                return self._joined(f.value.value, g.elt, var, cells)
+            if isinstance(e, ast.IfExp):
+                a, b = build(e.body), build(e.orelse)
+                if a is not None and b is not None:
+                    import copy
+                    return ast.IfExp(test=copy.deepcopy(e.test), body=a, orelse=b)
+            return None
+        out = build(it)
+        if out is None:
+            return node
+        for x in ast.walk(out):
+            if not hasattr(x, 'lineno'):
+                ast.copy_location(x, node)
+        return ast.copy_location(out, node)
+
+
 class _FormatToFString(ast.NodeTransformer):
     def __init__(self, const_locals):
         self.const_locals = const_locals
+
+    def visit_BinOp(self, node):
+        # '<literal with %s>' % (a, b)   ->   f-string   (only plain %s placeholders and %%; template a literal or a name bound once to one)
+        self.generic_visit(node)
+        if not isinstance(node.op, ast.Mod):
+            return node
+        if isinstance(node.left, ast.Constant) and isinstance(node.left.value, str):
+            tmpl = node.left.value
+        elif isinstance(node.left, ast.Name) and node.left.id in self.const_locals:
+            tmpl = self.const_locals[node.left.id]
+        else:
+            return node
+        import copy
+        import re as _re
+        pieces = _re.split(r'(%s|%%)', tmpl)
+        if '%' in ''.join(p_ for p_ in pieces if p_ not in ('%s', '%%')):
+            return node           # other conversions (%d, %(name)s, %r ...)
+        n_holes = sum(1 for p_ in pieces if p_ == '%s')
+        if isinstance(node.right, ast.Tuple):
+            args = list(node.right.elts)
+        elif isinstance(node.right, (ast.Dict, ast.Starred)):
+            return node
+        else:
+            if n_holes != 1 or isinstance(node.right, (ast.Name, ast.Call, ast.Attribute, ast.Subscript)) and n_holes != 1:
+                return node
+            # a single non-tuple operand fills the single hole - unless it could itself be a tuple at run time (a bare name / call): only literal-looking operands
+            if isinstance(node.right, (ast.Name, ast.Attribute, ast.Subscript, ast.Call, ast.JoinedStr, ast.Constant, ast.BinOp)):
+                args = [node.right]
+            else:
+                return node
+        if len(args) != n_holes or any(isinstance(a, ast.Starred) for a in args):
+            return node
+        values = []
+        it = iter(args)
+        for p_ in pieces:
+            if p_ == '%s':
+                values.append(ast.FormattedValue(value=copy.deepcopy(next(it)), conversion=-1, format_spec=None))
+            elif p_ == '%%':
+                values.append(ast.Constant(value='%'))
+            elif p_:
+                values.append(ast.Constant(value=p_))
+        js = ast.JoinedStr(values=values)
+        for x in ast.walk(js):
+            ast.copy_location(x, node)
+        return js
 
     def visit_Call(self, node):
         self.generic_visit(node)
@@ -434,6 +599,29 @@ class Desugar(ast.NodeTransformer):
             if k_ not in self.stores:
                 const_locals.setdefault(k_, v_)
         node = _FormatToFString(const_locals).visit(node)
+        # D9: joins over displays (directly or through a local bound once)
+        local_displays = {}
+        for x in ast.walk(node):
+            if isinstance(x, ast.Assign) and len(x.targets) == 1 and isinstance(x.targets[0], ast.Name) and self.stores.get(x.targets[0].id) == 1 \
+                    and isinstance(x.value, (ast.List, ast.Tuple, ast.IfExp)):
+                local_displays[x.targets[0].id] = x.value
+        if any(isinstance(x, ast.Attribute) and x.attr == 'join' for x in ast.walk(node)):
+            node = _JoinOverDisplay(local_displays).visit(node)
+            # a display local that was only read by the join is dead now
+            loads_now = Counter(x.id for x in ast.walk(node) if isinstance(x, ast.Name) and isinstance(x.ctx, ast.Load))
+            dead = {n for n in local_displays if loads_now.get(n, 0) == 0 and self.loads.get(n, 0) > 0}
+            if dead:
+                class _Drop(ast.NodeTransformer):
+                    def visit_Assign(self_, a):
+                        if len(a.targets) == 1 and isinstance(a.targets[0], ast.Name) and a.targets[0].id in dead and all(
+                                _pure_cell(c) for d in ([a.value] if not isinstance(a.value, ast.IfExp) else [a.value.body, a.value.orelse])
+                                for c in (d.elts if isinstance(d, (ast.List, ast.Tuple)) else [ast.Call(func=ast.Name(id='x', ctx=ast.Load()), args=[], keywords=[])])):
+                            return None
+                        return a
+                node = _Drop().visit(node)
+                if not node.body:
+                    node.body = [ast.Pass()]
+                self.loads = loads_now
         try:
             return self.generic_visit(node)
         finally:
